@@ -209,10 +209,10 @@ func (c rigConn) Close() error {
 	r.mu.Unlock()
 	return nil
 }
-func (c rigConn) LocalAddr() net.Addr                { return rigAddr{} }
-func (c rigConn) RemoteAddr() net.Addr               { return rigAddr{} }
-func (c rigConn) SetDeadline(t time.Time) error      { return c.SetWriteDeadline(t) }
-func (c rigConn) SetReadDeadline(t time.Time) error  { return nil }
+func (c rigConn) LocalAddr() net.Addr               { return rigAddr{} }
+func (c rigConn) RemoteAddr() net.Addr              { return rigAddr{} }
+func (c rigConn) SetDeadline(t time.Time) error     { return c.SetWriteDeadline(t) }
+func (c rigConn) SetReadDeadline(t time.Time) error { return nil }
 func (c rigConn) SetWriteDeadline(t time.Time) error {
 	if t.IsZero() {
 		atomic.StoreInt64(&c.r.wdl, 0)
@@ -252,17 +252,17 @@ func init() {
 // ---- a scheduled run -------------------------------------------------------------------------
 
 type muxCall struct {
-	kind   byte // 'G' Go, 'B' blocking Call, 'O' one-way Go, 'N' Go with a raw []byte reply (aliases the response buffer)
-	raw    *[]byte
-	goCall *client.Call
-	done   chan *client.Call
-	reply  *rigReply
-	cancel context.CancelFunc
-	retCh  chan error
-	ret    *error
+	kind     byte // 'G' Go, 'B' blocking Call, 'O' one-way Go, 'N' Go with a raw []byte reply (aliases the response buffer)
+	raw      *[]byte
+	goCall   *client.Call
+	done     chan *client.Call
+	reply    *rigReply
+	cancel   context.CancelFunc
+	retCh    chan error
+	ret      *error
 	deadline time.Time
-	phase  int // 0 fresh, 1 at-encode, 2 at-write, 3 written, 4 finished
-	seq    int
+	phase    int // 0 fresh, 1 at-encode, 2 at-write, 3 written, 4 finished
+	seq      int
 }
 
 // deadlineCtx: a context with a fixed Deadline whose expiry is triggered by the harness
